@@ -2,7 +2,7 @@ import OFCore.PeriodText
 /-!
 # Situation document → simulation (import-free apart from the period model)
 
-Transcription of the REPAIRED code (fixes C12a … C12f and C12gh, C12i, C12k, C12l, C12n applied):
+Transcription of the REPAIRED code (fixes C12a … C12f and C12gh, C12i, C12j, C12k, C12l, C12n, C12-errclass-axes applied):
 
 * `openfisca_core/simulations/simulation_builder.py` : `build_from_dict`, `build_from_entities`,
   `explicit_singular_entities`, `add_person_entity`, `add_group_entity`,
@@ -420,6 +420,31 @@ def applyWrite (buf : Buffer) (w : Write) : Buffer :=
 
 def applyWrites (buf : Buffer) (ws : List Write) : Buffer := ws.foldl applyWrite buf
 
+/-- `variable.definition_period == ETERNITY`, by name -/
+def isEternal (sys : Sys) (name : String) : Bool :=
+  match sys.var? name with
+  | some v => decide (v.defUnit = .eternity)
+  | none => false
+
+/-- the key of the first write, in document order, to variable `var` -/
+def firstKeyOf (ws : List Write) (var : String) : Option (List Char) :=
+  (ws.find? (fun w => w.var == var)).map (·.key)
+
+/-- `get_buffer_key` (repair C12j) on the writes of ONE entity (the variables of an entity are
+buffered by that entity's instances only): the canonical text of the period — except that every
+input of a variable defined for eternity joins the entry buffered first for that variable, whatever
+period key it is given under -/
+def resolveKeys (sys : Sys) (ws : List Write) : List Write :=
+  ws.map (fun w => if isEternal sys w.var then { w with key := (firstKeyOf ws w.var).getD w.key } else w)
+
+/-- `get_buffer_key` against a buffer (axes): the entry buffered first for an eternal variable -/
+def bufferKey (sys : Sys) (buf : Buffer) (name : String) (ck : List Char) : List Char :=
+  if isEternal sys name then
+    match buf.find? (fun e => e.1.1 == name) with
+    | some e => e.1.2
+    | none => ck
+  else ck
+
 /-- `add_variable_value` up to the buffer write, for one `(period key, value)` pair -/
 def valueWrite (var : Var) (size idx : Nat) (kv : DKey × Doc) : R (Option Write) :=
   match canonKey kv.1 with
@@ -578,7 +603,7 @@ def addGroupEntity (sys : Sys) (dp : Option String) (g : GroupKind) (personsIds 
     match foldE (groupStep sys dp g personsIds gids) ⟨personsIds, [], []⟩ kvs with
     | .error e => .error e
     | .ok acc =>
-      let buf1 := applyWrites buf acc.ws
+      let buf1 := applyWrites buf (resolveKeys sys acc.ws)
       if acc.toAlloc = [] then
         let mr := applyM personsIds.length acc.mws
         .ok (⟨g.key, g.plural, false, gids, mr.1, mr.2⟩, buf1)
@@ -650,7 +675,7 @@ def buildEntities (sys : Sys) (dp : Option String) (params : List (DKey × Doc))
     match addPersonEntity sys dp pj with
     | .error e => .error e
     | .ok (pids, pws) =>
-      let st0 : BState := ⟨[⟨sys.personKey, sys.personPlural, true, pids, [], []⟩], applyWrites [] pws⟩
+      let st0 : BState := ⟨[⟨sys.personKey, sys.personPlural, true, pids, [], []⟩], applyWrites [] (resolveKeys sys pws)⟩
       foldE (groupsStep sys dp params hasAxes pids) st0 sys.groups
 
 
@@ -797,7 +822,8 @@ def layAxis (sys : Sys) (dp : Option String) (entKey : String) (step cell cnt : 
     | some k =>
       match canonKey k with
       | .error _ => .error .other
-      | .ok ck =>
+      | .ok ck0 =>
+        let ck := bufferKey sys buf a.name ck0          -- repair C12j
         if cnt = 1 ∧ multi then .error .unmodelled else
         match mapE (fun c => axisCast var (axisValue a cnt c)) coords with
         | .error e => .error e
@@ -949,6 +975,20 @@ def finalize (sys : Sys) (si : SetInput) (st : BState) : R Sim :=
 
 def isAxesKey (k : DKey) : Bool := k == DKey.s "axes"
 
+/-- `check_axis` (repair C12-errclass-axes): an axis over an unknown variable, or over a period that
+cannot be read (`periods.period(None)` when neither the axis nor the builder gives one), is refused
+with a situation error before anything is expanded -/
+def checkAxis (sys : Sys) (dp : Option String) (a : Axis) : R Unit :=
+  match sys.var? a.name with
+  | none => .error .situation
+  | some _ =>
+    match axisKey dp a with
+    | none => .error .situation
+    | some k =>
+      match canonKey k with
+      | .error _ => .error .situation
+      | .ok _ => .ok ()
+
 /-- `build_from_entities` -/
 def buildFromEntities (sys : Sys) (dp : Option String) (si : SetInput) (kvs : List (DKey × Doc)) : R Sim :=
   let params := kvs.filter (fun kv => !isAxesKey kv.1)
@@ -962,9 +1002,12 @@ def buildFromEntities (sys : Sys) (dp : Option String) (si : SetInput) (kvs : Li
       match parseAxes ad with
       | .error e => .error e
       | .ok dims =>
-        match expandAxes sys dp st dims with
+        match foldE (fun (_ : Unit) a => checkAxis sys dp a) () dims.flatten with
         | .error e => .error e
-        | .ok st' => finalize sys si st'
+        | .ok _ =>
+          match expandAxes sys dp st dims with
+          | .error e => .error e
+          | .ok st' => finalize sys si st'
 
 def keyIn (l : List String) : DKey → Bool
   | .s v => l.contains v
@@ -1196,5 +1239,78 @@ def stdSetInput : SetInput := fun store var count p arr =>
             .ok (subs.foldl (fillUnknown var.name (remaining.map (fun x => Val.num (x / (n : Rat))))) store)
           else if remaining.all (· == 0) then .ok store
           else .error .other
+
+/-! ## the other construction routes
+
+* `SimulationBuilder.build_default_simulation(system, count)` ↦ `buildDefault`
+* `build_from_entities` called directly (the web API's `handlers.calculate` does, without the
+  dispatch of `build_from_dict`) ↦ `buildFromEntitiesDoc`
+* `create_entities` / `declare_person_entity` / `declare_entity` / `join_with_persons` / `build`
+  ↦ `buildJoined` (`joinMemb`, `joinRoles`) -/
+
+/-- `build_default_simulation(system, count)` : `count` persons, one group of each kind per person,
+first role, no input -/
+def buildDefault (sys : Sys) (count : Nat) : Sim := ⟨defaultEnts sys count, []⟩
+
+/-- `build_from_entities(system, input)` : `helpers.check_type(input_dict, dict, ["error"])` first -/
+def buildFromEntitiesDoc (sys : Sys) (dp : Option String) (si : SetInput) (d : Doc) : R Sim :=
+  match d.asObj? with
+  | none => .error .situation
+  | some kvs => buildFromEntities sys dp si kvs
+
+/-- `join_with_persons` (repair F-C11b), memberships: the position, among the DECLARED group ids,
+of the id each person is assigned to.  `numpy.searchsorted` on ids that are not pairwise distinct,
+or for an id that is not declared, is outside the model. -/
+def joinMemb (gids assign : List String) : R (List Nat) :=
+  if gids.Nodup then
+    mapE (fun a => if a ∈ gids then .ok (gids.idxOf a) else .error .unmodelled) assign
+  else .error .unmodelled
+
+/-- a role given to `join_with_persons`: a key of a flattened role, or an index into them -/
+inductive RoleRef | key (k : String) | idx (i : Nat)
+deriving DecidableEq, Repr, Inhabited
+
+/-- `join_with_persons`, roles: all indices (`numpy.array(flattened_roles)[roles_array]`) or all
+keys (`numpy.select`; a key that is no role would leave the integer 0 in the array: outside the
+model, like a mixed or an empty list) -/
+def joinRoles (flat : List String) (roles : List RoleRef) : R (List String) :=
+  match roles with
+  | [] => .error .unmodelled
+  | .idx _ :: _ =>
+    mapE (fun r => match r with
+      | .idx i => (match flat[i]? with | some k => .ok k | none => .error .other)
+      | .key _ => .error .unmodelled) roles
+  | .key _ :: _ =>
+    mapE (fun r => match r with
+      | .key k => if k ∈ flat then .ok k else .error .unmodelled
+      | .idx _ => .error .unmodelled) roles
+
+/-- one `declare_entity` + `join_with_persons` -/
+structure Joined where
+  kind : String
+  ids : List String
+  assign : List String
+  roles : List RoleRef
+deriving Repr, Inhabited
+
+def joinOne (sys : Sys) (npersons : Nat) (j : Joined) : R Ent :=
+  match sys.groups.find? (fun g => g.key == j.kind) with
+  | none => .error .other
+  | some g =>
+    if j.assign.length ≠ npersons ∨ j.roles.length ≠ npersons then .error .unmodelled else
+    match joinMemb j.ids j.assign with
+    | .error e => .error e
+    | .ok memb =>
+      match joinRoles g.flatRoles j.roles with
+      | .error e => .error e
+      | .ok roles => .ok ⟨g.key, g.plural, false, j.ids, memb, roles⟩
+
+/-- `create_entities`, `declare_person_entity`, one `declare_entity` + `join_with_persons` per group
+kind of the system (in system order), `build` -/
+def buildJoined (sys : Sys) (pids : List String) (js : List Joined) : R Sim :=
+  if js.map (·.kind) ≠ sys.groups.map (·.key) then .error .unmodelled else
+  match mapE (joinOne sys pids.length) js with
+  | .error e => .error e
+  | .ok ents => .ok ⟨⟨sys.personKey, sys.personPlural, true, pids, [], []⟩ :: ents, []⟩
 
 end OFCore.Bld
